@@ -15,8 +15,19 @@ import c03
 
 def check(tier, replay):
     quick = tier != "thorough"
+    rep = vlib.Report("C04", tier, "model_checking")
+    # external elements: the directory knobs (HXsetcreatedir / HXsetdir) and the environment decide WHICH file is
+    # used, never what is read from it
+    model_flow("C04", tier, replay, spec="ExtElem.tla", mods="ops_ext", trace=("Trace_ExtElem.tla", "Trace_ExtElem.cfg"),
+               mc=[("MC_ExtElem.tla", "MC_ExtElem_q.cfg", "quick"), ("MC_ExtElem.tla", "MC_ExtElem.cfg", "thorough")],
+               gens=[("external elements: one behaviour per transition (2 elements, 2 names, 3 directories, relative and absolute names, creation and search directories, files moved / removed / planted)", "Gen_ExtElem.tla", "Gen_ExtElem_cover.cfg", "cover", {"sample": 15000}),
+                     ("external elements: simulate depth 14, offsets 0/2/5, lengths 1/3/4", "Gen_ExtElem.tla", "Gen_ExtElem_sim.cfg", "sim", {"num_quick": 400, "num": 6000, "depth": 15, "sample": 12000})],
+               mutators={"Create", "Promote", "Overwrite", "PutPlain", "Move", "Plant", "Remove", "SetCreateDir", "SetSearch"},
+               need_actions=["Create", "Promote", "Overwrite", "Read", "Move", "Plant", "Remove", "SetCreateDir", "SetSearch", "Reopen"],
+               rep=rep, finish=False, part="ext", tv_quick=6000,
+               assumptions=["external elements (specs/ExtElem.tla): every read / overwrite is one start..endaccess, so no external file stays open across a change of HXsetdir; the environment variables HDFEXTDIR / HDFEXTCREATEDIR are unset; overwrites stay inside the element"])
     return model_flow(
-        "C04", tier, replay, spec="SDArray.tla", mods="ops_h,ops_sd", trace=("Trace_SDArray.tla", "Trace_SDArray.cfg"),
+        "C04", tier, replay, rep=rep, spec="SDArray.tla", mods="ops_h,ops_sd", trace=("Trace_SDArray.tla", "Trace_SDArray.cfg"),
         mc=[("MC_SDArray.tla", "MC_SDArray_chunk.cfg")],
         gens=[("every transition x every storage configuration, histories <= 2 calls", "Gen_SDArray.tla", "Gen_SDArray_layouts3.cfg", "cover", {"sample": 40000, "quick_only": True}),
               ("every transition x every storage configuration, histories <= 3 calls", "Gen_SDArray.tla", "Gen_SDArray_layouts.cfg", "cover", {"thorough_only": True, "timeout": 3000}),
